@@ -571,17 +571,17 @@ func Run(o *core.Options) int {
 // ---------------- part 2: leak histories ----------------
 
 type LeakCase struct {
-	Config  Config        `json:"config"`
-	Model   *ref.Model    `json:"model"`
-	Stored  []ref.Tuple   `json:"stored"`
-	History [][]ref.Tuple `json:"history"` // contextual tuples per step
-	Step    int           `json:"step"`
-	Req     Req           `json:"request"`
-	ViaBatch bool         `json:"via_batch"`
-	Fresh   string        `json:"fresh_server_answer"`
-	Got     string        `json:"answer_in_history"`
-	Seen    string        `json:"seen"`
-	Read    []string      `json:"read_after_step,omitempty"`
+	Config   Config        `json:"config"`
+	Model    *ref.Model    `json:"model"`
+	Stored   []ref.Tuple   `json:"stored"`
+	History  [][]ref.Tuple `json:"history"` // contextual tuples per step
+	Step     int           `json:"step"`
+	Req      Req           `json:"request"`
+	ViaBatch bool          `json:"via_batch"`
+	Fresh    string        `json:"fresh_server_answer"`
+	Got      string        `json:"answer_in_history"`
+	Seen     string        `json:"seen"`
+	Read     []string      `json:"read_after_step,omitempty"`
 }
 
 func leakPool(m *ref.Model, u ref.Universe, thorough bool) []ref.Tuple {
@@ -709,11 +709,11 @@ func leak(r *core.Report, o *core.Options, models []*ref.Model, cfg Config, kc i
 			h := h
 			r.Count("leak_histories", 1)
 			type dev struct {
-				step, i  int
-				viaBatch bool
+				step, i   int
+				viaBatch  bool
 				want, got string
-				reqs     []Req
-				read     []string
+				reqs      []Req
+				read      []string
 			}
 			var devs []dev
 			runHistory(h, func(step, i int, viaBatch bool, reqs []Req, want, got string, read []string) {
